@@ -12,7 +12,12 @@ RULE = ("conjugate Gaussian targets (1-d, 2-d with correlated posterior, 2-laten
         "full-covariance (non-diagonal Cholesky) families, reparameterised and score-function, plus a structured two-site score-function family: "
         "ELBO per seeded draw at the exact posterior = log p(x); mean ELBO / mean grad_estimate over seeded draws off the posterior vs closed "
         "forms (CLT band z<5.5) and <= log p(x); optimize_vi / elbo_vi: every iterate of param_history vs the exact recurrence "
-        "params + lr*grad (Lean optimiser model, rational gradients); non-trivial = every (target, family, parameter) combination")
+        "params + lr*grad (Lean optimiser model, rational gradients); discrete targets/families built from flip/categorical with dyadic "
+        "probabilities (term language of the GFI model): for EVERY outcome z of the family (scripted draws) exp(elbo.estimate) vs the exact "
+        "ratio p(x,z)/q(z) of the Lean model (driver `vi-elbo`: elboDraw/elboRatio over rationals) and of an independent Fraction oracle, "
+        "sum_z q(z)*ratio = evidence, family = exact posterior => every draw = log p(x), seeded draws with the library's own samplers land on "
+        "those ratios and average to sum_z q(z) log ratio <= log p(x); a family proposing at an observed address (merge precedence; model vs "
+        "implementation only); non-trivial = every (target, family, parameter) combination")
 
 
 def z_ok(arr, want, extra=0.0):
@@ -202,6 +207,246 @@ def optimiser(G, ctx):
         ctx.count("optimiser")
 
 
+# ----------------------------------------------------------------------------- discrete targets / families (model: Model/ViElbo.lean)
+def _C(q):
+    return ("c", Fr(q))
+
+
+def _fn(*calls, ret):
+    b = ("ret", ret)
+    for addr, d, es in reversed(calls):
+        b = ("call", addr, ("dist", d), list(es), b)
+    return ("fn", b)
+
+
+def _calls(term):
+    out, b = [], term[1]
+    while b[0] == "call":
+        out.append((b[1], b[2][1], b[3]))
+        b = b[4]
+    return out, b[1]
+
+
+V = lambda i: ("v", i)
+
+
+def discrete_cases(rng):
+    """(name, target term, family term, family params, constraint {addr: value}, flags).  Distribution sites: (dist 0) = flip(p),
+    (dist 1) = categorical over the probabilities given as scalar arguments.  A target takes no arguments (its env is the list of
+    its own draws); the family's env starts with its parameters."""
+    half = lambda e: ("*", e, _C(Fr(1, 2)))
+    th = rng.choice([Fr(1, 4), Fr(1, 2), Fr(1, 8), Fr(5, 8), Fr(7, 8)])
+    th2 = rng.choice([Fr(1, 4), Fr(1, 8), Fr(3, 8)])
+    # z ~ flip(1/4); k ~ cat(z ? (1/2,1/4,1/4) : (1/8,1/8,3/4)); y ~ flip(k == 2 ? 3/4 : 1/4)
+    t1 = _fn(("z", 0, [_C(Fr(1, 4))]),
+             ("k", 1, [("+", _C(Fr(1, 8)), ("*", V(0), _C(Fr(3, 8)))), ("+", _C(Fr(1, 8)), ("*", V(0), _C(Fr(1, 8)))),
+                       ("-", _C(Fr(3, 4)), half(V(0)))]),
+             ("y", 0, [("+", _C(Fr(1, 4)), half(("<", _C(1), V(1))))]), ret=V(2))
+    # family(theta, theta2): z ~ flip(theta); k ~ cat(z ? (1/2, 1/2 - theta2, theta2) : (1/4, 1/4, 1/2))
+    q1 = _fn(("z", 0, [V(0)]),
+             ("k", 1, [("+", _C(Fr(1, 4)), ("*", V(2), _C(Fr(1, 4)))),
+                       ("+", _C(Fr(1, 4)), ("*", V(2), ("-", _C(Fr(1, 4)), V(1)))),
+                       ("+", _C(Fr(1, 2)), ("*", V(2), ("-", V(1), _C(Fr(1, 2)))))]), ret=V(3))
+    # b ~ flip(1/2); y ~ flip(1/4 + b/2):  y = 1 => p(x) = 1/2, posterior P(b = 1) = 3/4
+    t2 = _fn(("b", 0, [_C(Fr(1, 2))]), ("y", 0, [("+", _C(Fr(1, 4)), half(V(0)))]), ret=V(1))
+    q2 = _fn(("b", 0, [V(0)]), ret=V(1))
+    # k ~ cat(1/4,1/4,1/2); y ~ flip((1/2,1/4,1/8)[k]):  y = 1 => joint (1/8,1/16,1/16), p(x) = 1/4, posterior (1/2,1/4,1/4)
+    t3 = _fn(("k", 1, [_C(Fr(1, 4)), _C(Fr(1, 4)), _C(Fr(1, 2))]),
+             ("y", 0, [("+", ("-", _C(Fr(1, 2)), ("*", V(0), _C(Fr(1, 4)))), ("*", ("<", _C(1), V(0)), _C(Fr(1, 8))))]), ret=V(1))
+    q3 = _fn(("k", 1, [V(0), V(1), V(2)]), ret=V(3))
+    # the family ALSO proposes at the observed address y (merge(constraint, z): z wins)
+    q4 = _fn(("b", 0, [V(0)]), ("y", 0, [_C(Fr(1, 4))]), ret=V(1))
+    # observed categorical, latent flip:  b ~ flip(3/8); k ~ cat(b ? (1/2,1/4,1/4) : (1/8,1/8,3/4)), k = 2 observed
+    t5 = _fn(("b", 0, [_C(Fr(3, 8))]),
+             ("k", 1, [("+", _C(Fr(1, 8)), ("*", V(0), _C(Fr(3, 8)))), ("+", _C(Fr(1, 8)), ("*", V(0), _C(Fr(1, 8)))),
+                       ("-", _C(Fr(3, 4)), half(V(0)))]), ret=V(1))
+    return [
+        ("flip-cat", t1, q1, [th, th2], {"y": 1}, {}),
+        ("posterior-flip", t2, q2, [Fr(3, 4)], {"y": 1}, {"posterior": Fr(1, 2)}),
+        ("off-posterior-flip", t2, q2, [th], {"y": 1}, {}),
+        ("posterior-cat", t3, q3, [Fr(1, 2), Fr(1, 4), Fr(1, 4)], {"y": 1}, {"posterior": Fr(1, 4)}),
+        ("off-posterior-cat", t3, q3, [Fr(1, 4), Fr(1, 4) + th2 / 2, Fr(1, 2) - th2 / 2], {"y": 1}, {}),
+        ("observed-cat", t5, q2, [th], {"k": 2}, {}),
+        ("shared-address", t2, q4, [th], {"y": 1}, {"shared": True}),
+    ]
+
+
+def ref_mass(term, args, choices):
+    """independent oracle: product of the site masses of `term` on the choice dict (Fractions); None if an address is missing"""
+    import gfi
+    calls, _ = _calls(term)
+    env, mass = list(args), Fr(1)
+    for addr, d, es in calls:
+        ps = [gfi.rev(e, env) for e in es]
+        if addr not in choices:
+            return None
+        v = choices[addr]
+        if d == 0:
+            mass *= ps[0] if v == 1 else (1 - ps[0] if v == 0 else Fr(0))
+        else:
+            mass *= ps[int(v)] if 0 <= v < len(ps) and int(v) == v else Fr(0)
+        env.append(Fr(v))
+    return mass
+
+
+def ref_outcomes(term, args):
+    """every outcome of the family: [(choices dict, probability)]"""
+    import gfi
+    calls, _ = _calls(term)
+    outs = [({}, list(args), Fr(1))]
+    for addr, d, es in calls:
+        nxt = []
+        for ch, env, pr in outs:
+            ps = [gfi.rev(e, env) for e in es]
+            table = [(0, 1 - ps[0]), (1, ps[0])] if d == 0 else list(enumerate(ps))
+            for v, p in table:
+                nxt.append(({**ch, addr: v}, env + [Fr(v)], pr * p))
+        outs = nxt
+    return [(ch, pr) for ch, _, pr in outs]
+
+
+def build_discrete(G, term, dists, family, scripted=False):
+    """real genjax function for a Fn-of-Distributions term; dists[d] is the distribution object called at a site of kind d.
+    family: the first argument is the constraint (ignored, as in mean_field_normal_family).  scripted: the last argument is a dict
+    {address: value} handed to the (scripted) samplers as an extra distribution argument."""
+    import jax.numpy as jnp
+    import gfi
+    calls, ret = _calls(term)
+
+    def f(*args):
+        args = list(args[1:] if family else args)
+        forced = args.pop() if scripted else None
+        env = [jnp.asarray(a, jnp.float32) for a in args]
+        for addr, d, es in calls:
+            vals = [jnp.asarray(gfi.ev(e, env, jnp), jnp.float32) for e in es]
+            prm = vals[0] if d == 0 else jnp.log(jnp.stack(vals))
+            v = (dists[d](prm, forced[addr]) if scripted else dists[d](prm)) @ addr
+            env.append(jnp.asarray(v, jnp.float32))
+        return gfi.ev(ret, env, jnp)
+    return G.gen(f)
+
+
+def impl_value(d, v):
+    import jax.numpy as jnp
+    return jnp.asarray(bool(v)) if d == 0 else jnp.asarray(int(v), jnp.int32)
+
+
+def discrete_elbo(G, ctx, n_seeded=2000):
+    import jax
+    import jax.numpy as jnp
+    import jax.random as jr
+    import genjax.adev as A
+    import gfi
+    from genjax.core import distribution
+    from genjax.inference.vi import elbo_factory
+    real = [G.flip, G.categorical]
+
+    def cat_keyful(key, logits, sample_shape=()):
+        return jr.categorical(key, logits, shape=tuple(sample_shape) + tuple(jnp.shape(logits)[:-1]))
+    lib = [A.flip_reinforce, distribution(A.reinforce(G.categorical.sample, G.categorical.logpdf, cat_keyful), G.categorical.logpdf)]
+
+    def scripted(d):
+        # REINFORCE site whose sampler returns its last argument (the scripted draw, passed as a float); the density is the real one
+        # on the other arguments
+        lp = lambda v, *a: real[d].logpdf(v, *a[:-1])
+        cast = (lambda u: u != 0) if d == 0 else (lambda u: u.astype(jnp.int32))
+        return distribution(A.reinforce(lambda *a: cast(a[-1]), lp, lambda key, *a, sample_shape=(): cast(a[-1])), lp)
+    scr = [scripted(0), scripted(1)]
+    tol = dict(rtol=1e-4, atol=1e-6)
+    cases = discrete_cases(ctx.rng)
+    lines = [sexp.dumps(["vi-elbo", gfi.gf_sexp(t), [], gfi.gf_sexp(q), list(th), gfi.cm_sexp(("node", {a: ("leaf", Fr(v)) for a, v in x.items()}))])
+             for _, t, q, th, x, _ in cases]
+    outs = common.driver_run(lines)
+    for (name, t, q, th, x, flags), line in zip(cases, outs):
+        r = sexp.loads(line)
+        case = {"kind": "elbo-discrete", "name": name, "family_params": [str(p) for p in th], "constraint": x}
+        if r[0] != "ok":
+            ctx.correspondence_break("C17.elbo_discrete", f"the Lean driver rejected the vi-elbo query: {line[:200]}", case)
+            continue
+        fields = {k[0]: k[1:] for k in r[1:]}
+        rows = {}
+        for row in fields["rows"]:
+            rf = {k[0]: k[1] for k in row[1:]}
+            ch = gfi.parse_cm(rf["choices"])
+            key = tuple(sorted((a, int(v[1])) for a, v in ch[1].items())) if ch else None
+            rows[key] = {k: (None if rf[k] == "err" else Fr(rf[k])) for k in ("prob", "qmass", "joint", "ratio", "draw")}
+        tcalls, qcalls = dict((a, d) for a, d, _ in _calls(t)[0]), dict((a, d) for a, d, _ in _calls(q)[0])
+        shared = bool(flags.get("shared"))
+        constraint = {a: impl_value(tcalls[a], v) for a, v in x.items()}
+        fam_lib = build_discrete(G, q, lib, True)
+        target = build_discrete(G, t, real, False)
+        fam_scr = build_discrete(G, q, scr, True, scripted=True)
+        theta = [jnp.float32(float(p)) for p in th]
+        scripted_estimate = jax.jit(lambda forced: elbo_factory(target, fam_scr, constraint).estimate(*theta, forced))
+        family_logq = jax.jit(lambda zc: fam_lib.assess(zc, constraint, *theta)[0])
+        ref = ref_outcomes(q, th)
+        # the model enumerates the same outcomes with the same probabilities as the oracle (both sides exact)
+        if sorted(rows, key=repr) != sorted((tuple(sorted(ch.items())) for ch, _ in ref), key=repr):
+            ctx.correspondence_break("C17.elbo_discrete", f"{name}: the model's outcomes of the family differ from the enumeration of its sites", case)
+            continue
+        evidence_ref, total, elbo_ref, per_z = Fr(0), 0.0, 0.0, []
+        for ch, pr in ref:
+            key = tuple(sorted(ch.items()))
+            m = rows[key]
+            merged = {**x, **ch}                                   # the family's draw wins on a shared address (merge(x, x_): x_)
+            joint = ref_mass(t, [], merged)
+            want = joint / pr if pr != 0 else None
+            if m["prob"] != pr or m["qmass"] != pr or m["joint"] != joint or m["ratio"] != want or m["draw"] != want:
+                ctx.correspondence_break("C17.elbo_discrete", f"{name}: model row {m} at z={ch} differs from the oracle (q={pr}, p(x,z)={joint})", case)
+                continue
+            zc = {a: impl_value(qcalls[a], v) for a, v in ch.items()}
+            val = float(scripted_estimate({a: jnp.float32(float(v)) for a, v in ch.items()}))
+            logq = float(family_logq(zc))
+            got = math.exp(val)
+            per_z.append((ch, got, float(want), math.exp(logq)))
+            total += math.exp(logq) * got
+            if not shared:
+                evidence_ref += joint
+                elbo_ref += float(pr) * math.log(float(want)) if want > 0 else 0.0
+            ctx.case(sample=None, nontrivial_key=("discrete", name, key))
+            ctx.count("elbo-discrete-draw")
+            if not np.isclose(got, float(m["ratio"]), **tol):
+                ctx.correspondence_break("C17.elbo_discrete", f"{name}: exp(elbo.estimate) at the scripted draw z={ch} is {got:.6g}, the model's elboDraw "
+                                                              f"gives {float(m['ratio']):.6g}", case)
+            if shared:
+                continue                      # what the objective means when the family proposes at an observed address is not part of C17
+            if not np.isclose(got, float(want), **tol):
+                ctx.property_failure(None, f"{name}: the objective at the draw z={ch} is log {got:.6g}, not log p(x,z) - log q(z) = log {float(want):.6g} "
+                                           f"(p(x,z)={joint}, q(z)={pr})", dict(case, z=ch))
+            if not np.isclose(math.exp(logq), float(pr), **tol):
+                ctx.correspondence_break("C17.elbo_discrete", f"{name}: family.assess at z={ch} gives q(z)={math.exp(logq):.6g}, the model {float(pr):.6g}", case)
+            if "posterior" in flags and not np.isclose(val, math.log(float(flags["posterior"])), rtol=1e-4, atol=1e-5):
+                ctx.property_failure(None, f"{name}: the family is the exact posterior but the draw z={ch} gives {val:.6f}, not log p(x) = {math.log(float(flags['posterior'])):.6f}",
+                                     dict(case, z=ch))
+        case["per_draw"] = [(str(ch), g, w) for ch, g, w, _ in per_z]
+        if shared:
+            ctx.case(sample=case, nontrivial_key=("discrete", name))
+            continue
+        if Fr(fields["mean"][0]) != evidence_ref:
+            ctx.correspondence_break("C17.elbo_discrete", f"{name}: the model's E_q[p/q] = {fields['mean'][0]} is not the evidence {evidence_ref}", case)
+        case.update({"evidence": str(evidence_ref), "sum_q_ratio": total})
+        if not np.isclose(total, float(evidence_ref), **tol):
+            ctx.property_failure(None, f"{name}: sum_z q(z) * exp(objective(z)) = {total:.6g} over all outcomes of the family, not the evidence p(x) = {float(evidence_ref):.6g}", case)
+        # the library's own samplers: every seeded draw lands on one of those ratios; the mean is E_q[log p - log q] <= log p(x)
+        elbo = elbo_factory(target, fam_lib, constraint)
+        keys = jr.split(jr.key(ctx.seed + 11), n_seeded)
+        vals = np.asarray(jax.jit(jax.vmap(lambda k: G.seed(elbo.estimate)(k, *theta)))(keys), dtype=np.float64)
+        support = np.array([math.log(float(w)) for _, _, w, qz in per_z if qz > 0 and w > 0])
+        off = np.abs(vals[:, None] - support[None, :]).min(axis=1)
+        if off.max() > 1e-4 * (1 + np.abs(vals).max()):
+            i = int(off.argmax())
+            ctx.property_failure(None, f"{name}: seeded draw #{i} of elbo.estimate gives {vals[i]:.6f}, which is not log p(x,z) - log q(z) for any outcome z of the family "
+                                       f"({sorted(support.tolist())})", dict(case, key_index=i))
+        ok, mean, se = z_ok(vals, elbo_ref)
+        case.update({"mean_elbo": mean, "closed_form": elbo_ref, "log_evidence": math.log(float(evidence_ref))})
+        if not ok:
+            ctx.property_failure(None, f"{name}: mean ELBO over {n_seeded} seeded draws {mean:.4f} +- {se:.4f} != sum_z q(z)(log p(x,z) - log q(z)) = {elbo_ref:.4f}", case)
+        if mean - 5.5 * se - 2e-3 > math.log(float(evidence_ref)):
+            ctx.property_failure(None, f"{name}: mean ELBO {mean:.4f} exceeds log p(x) = {math.log(float(evidence_ref)):.4f}", case)
+        ctx.case(sample=case, nontrivial_key=("discrete", name))
+        ctx.count("elbo-discrete")
+
+
 def shard(ctx, which, n):
     G = impl.load()
     {"1d": one_dim, "2d": two_dim_fullcov, "sr": structured_reinforce}[which](G, ctx, n)
@@ -211,6 +456,7 @@ def run(ctx, audit):
     n = 20000 if ctx.thorough else 4000
     common.run_sharded(ctx, "props.c17", "shard", [("1d", n), ("2d", n), ("sr", 4 * n)])
     optimiser(impl.load(), ctx)
+    discrete_elbo(impl.load(), ctx, 8000 if ctx.thorough else 2000)
     return {"rule": RULE}
 
 
@@ -224,6 +470,10 @@ def replay(ctx, payload):
         two_dim_fullcov(G, ctx, n)
     elif k == "structured-reinforce":
         structured_reinforce(G, ctx, 4 * n)
+    elif k == "elbo-discrete":
+        c2 = common.Ctx(ctx.prop_id, ctx.tier, int(payload.get("seed", 0)))     # the family parameters are drawn from the run's rng
+        ctx.rng, ctx.seed = c2.rng, c2.seed
+        discrete_elbo(G, ctx)
     else:
         optimiser(G, ctx)
     for i in ctx.issues:
